@@ -81,6 +81,8 @@ def run_behaviour(fx, np, bid, h, variant=0, probe=True):
         tgt = a.get('x') if act in ('New', 'Store', 'SetItem', 'SetItemFxp', 'Resize', 'Reset', 'SetCfg', 'SetCfgBad', 'Assign', 'Drop', 'IOp', 'SetRaw') else \
             a.get('z') if act == 'BinOpOut' else \
             (a.get('y') if act in ('GetItem', 'CtorLike', 'NewLike', 'Like', 'LikeShallow', 'CopyShallow', 'DeepCopy', 'RShiftKeep', 'LShiftKeep', 'Invert', 'ShiftExpand') else a.get('z'))
+        if act in ('Store', 'SetItem', 'SetItemFxp', 'SetRaw') and (variant + bid + i) % 2 == 0:
+            _rejected_write(np, heap.get(a['x']))
         for r in rec.values():
             if r is not None:
                 r.ev = []
@@ -301,6 +303,28 @@ def run_behaviour(fx, np, bid, h, variant=0, probe=True):
     return rows
 
 
+def _rejected_write(np, o):
+    """DISTURBANCE before a write: an indexed write that is REJECTED (index out of range) with an out-of-range value, and reset().
+    Only on objects whose flags are all clear (the failed write may raise a flag before it fails; reset() clears it again), so the
+    object is what it was - and the next accepted write must report exactly its own conditions, once."""
+    try:
+        if o is None or o.val is None or np.ndim(o.val) != 1:
+            return
+        st = o.status
+        if st.get('overflow') or st.get('underflow') or st.get('inaccuracy'):
+            return
+        big = float(2.0 ** (int(o.n_word) - int(o.n_frac) + 2))
+        for bad in (lambda: o.__setitem__(int(np.size(o.val)) + 3, big), lambda: o.__setitem__(slice(0, 1), [-big, big, 0.3]),
+                    lambda: o.set_val(-big - 0.3, index=int(np.size(o.val)) + 5)):
+            try:
+                bad()
+            except Exception:
+                pass
+        o.reset()
+    except Exception:
+        pass
+
+
 def _probe_suffix(np, heap, tgt, salt):
     """INTERFERENCE PROBE appended to a behaviour: the object the last call was about is reconfigured and written with a value
     that raises flags (two more actions of the specification).  The model covers every TRANSITION once, but the real objects
@@ -318,7 +342,17 @@ def _probe_suffix(np, heap, tgt, salt):
         rnd = 'around' if o.config.rounding != 'around' else 'floor'
         ovf = 'wrap' if o.config.overflow != 'wrap' else 'saturate'
         ks = [4 * hi + 6, 4 * lo - 5][:n] if salt % 2 else [2, 4 * hi + 6][:n]
-        return [{'act': 'SetCfg', 'x': tgt, 'key': 'rnd', 'val': rnd}, {'act': 'SetCfg', 'x': tgt, 'key': 'ovf', 'val': ovf},
-                {'act': 'Store', 'x': tgt, 'ks': ks}]
+        pre = []
+        if salt % 2 == 0:
+            # first an element write (the largest value of its format: exact, no flag) into every OTHER 1-D object and into the
+            # target itself: whatever memory the real objects share beyond what the model says shows up in the comparison
+            for name in NAMES:
+                p = heap.get(name)
+                if p is None or p.val is None or np.ndim(p.val) != 1 or int(np.size(p.val)) not in (1, 2):
+                    continue
+                ph = (1 << (int(p.n_word) - 1)) - 1 if bool(p.signed) else (1 << int(p.n_word)) - 1
+                pre.append({'act': 'SetItem', 'x': name, 'j': int(np.size(p.val)), 'k4': 4 * ph})
+        return pre + [{'act': 'SetCfg', 'x': tgt, 'key': 'rnd', 'val': rnd}, {'act': 'SetCfg', 'x': tgt, 'key': 'ovf', 'val': ovf},
+                      {'act': 'Store', 'x': tgt, 'ks': ks}]
     except Exception:
         return []
